@@ -289,8 +289,13 @@ def rule_intercept(prog):
     res.inst("event_loop/static", mapped_keys_referenced=ok_static)
     # from the raw pass-through, the send is not reachable within the same iteration
     read_blocks = [b for b, _ in reads] + [b for b, _ in blocks_calling(f, f.reachable(), ["core::iter::traits::iterator::Iterator::next"])]
+    from kq.analysis import reach_under_variant
     for b, t in raws:
-        r = f.reach_from(f.succs(b)[0] if f.succs(b) else b, avoid=read_blocks)
+        start = f.succs(b)[0] if f.succs(b) else b
+        r = f.reach_from(start, avoid=read_blocks)
+        # `let send = if .. { raw(); false } else { true }; if !send { continue }`: follow boolean flags that were assigned a
+        # constant on the path (the same tracking that decides `matches!` temporaries)
+        r &= reach_under_variant(prog, f, "-", "-", start=start)
         for sb, st_ in sends:
             if sb in r:
                 res.viol("event_loop/raw-then-send", "%s:%s" % (f.file, t.get("ln")),
